@@ -868,7 +868,7 @@ def run_concurrent(ctx, c, binp, ip, hists, seq_rows, name, race=False):
     variant = "concurrent (%d goroutines%s)" % (g, ", -race build" if race else "")
     if dead:
         racy = "DATA RACE" in dead["out"]
-        if racy and "internal/times." in dead["out"]:
+        if racy and re.search(r"internal/times\.(?!c20|TestC20)\w", dead["out"]):      # a frame of the library, not of the injected test
             at = dead["out"].find("WARNING: DATA RACE")
             finding(ctx, "hist:race", "the race detector reports a data race inside the duration helpers when %d goroutines "
                     "format/parse their own values: %s" % (g, dead["out"][at:at + 1500]),
@@ -1014,7 +1014,8 @@ def do_replay(ctx, c, path):
         g = int(rp.get("goroutines") or 0)
         if g:
             c = dict(c, goroutines=g)
-        hists = [rp["history"]] * (4 * g if g else 1)
+        # concurrent: many copies of the history, so that the goroutines really overlap
+        hists = [rp["history"]] * (max(4 * g, min(250 * g, 40000 // max(1, len(rp["history"])))) if g else 1)
         rows, ip = run_sequential(ctx, c, binp, hists, "r")
         if rows is not None:
             report_hist(ctx, validate_hist(ctx, c, rows, "replay", c["hist_chunk"]), hists, 1, "sequential")
